@@ -10,7 +10,7 @@
     (one call to A, receiver pointer first, arguments in order, callee's result returned) is
     [RustExec.exec_address_call] (spec side). *)
 From Coq Require Import List NArith ZArith Bool String.
-From PyxisModel Require Import Base Grammar SemTypes Registry Sem FunctionLemmas WholeBuild.
+From PyxisModel Require Import Base Grammar SemTypes Registry Sem FunctionLemmas WholeBuild Examples.
 Import ListNotations.
 
 Theorem C05_main : forall R scope f sf,
@@ -74,3 +74,14 @@ Theorem C05_whole_build : forall order ptr mods st0 st p it0 gd td0 it r parent 
     Forall2 (fun f sf => function_build R_mid (module_scope module0) false f = Ok sf) (gb_fns blk) own.
 Proof. exact whole_build_impl_functions. Qed.
 Print Assumptions C05_whole_build.
+
+(** non-vacuity of [C05_whole_build]: [impl Base { #[address(120)] pub fn meth(..) }] of Examples.v *)
+Example C05_whole_build_example :
+  exists st0 st it0 gd td0 it r module0 blk,
+    input_state 4 Examples.ex_mods = Ok st0 /\ collision_freeb (st_reg st0) = true /\
+    pyxis_resolve (hook_schedule []) 4 Examples.ex_mods = BOk st /\
+    reg_get (st_reg st0) ["m"; "Base"]%string = Some it0 /\ it_state it0 = Unresolved gd /\ gi_inner gd = GIType td0 /\
+    reg_get (st_reg st) ["m"; "Base"]%string = Some it /\ it_state it = Resolved r /\
+    alookup ["m"]%string (st_modules st0) = Some module0 /\
+    alookup ["m"; "Base"]%string (m_impls module0) = Some blk /\ List.length (gb_fns blk) = 1%nat.
+Proof. vm_compute. do 9 eexists. repeat split; reflexivity. Qed.
